@@ -62,13 +62,13 @@ def main(argv):
     except Exception:
         tb = traceback.format_exc()
         ctx.report("the check itself crashed: " + tb.splitlines()[-1], {"traceback": tb}, concrete=False)
-        if "generated_model" not in ctx.engines and pid in ("C01", "C02", "C10", "C12", "C17", "C19"):
+        if "generated_model" not in ctx.engines and pid in ("C01", "C02", "C07", "C08", "C10", "C12", "C17", "C19"):
             # the engine died before its generated-model tie (last call of run()) was reached: run it now, it searches for a concrete input
             try:
                 import gencheck, gencheck12, gencheck01
                 import gencheck_enc
                 {"C01": lambda: (gencheck01.run_generated_c01(ctx), gencheck_enc.run_generated_kpc(ctx)), "C17": lambda: gencheck01.run_generated_c17(ctx),
-                 "C02": lambda: gencheck_enc.run_generated_kfd(ctx),
+                 "C02": lambda: gencheck_enc.run_generated_kfd(ctx), "C07": lambda: gencheck_enc.run_generated_klae(ctx), "C08": lambda: gencheck_enc.run_generated_kmpe(ctx),
                  "C10": lambda: gencheck.run_generated(ctx, ["max_occurrence"]),
                  "C19": lambda: gencheck.run_generated(ctx, ["nonneg_check", "check_flow_conservation"]),
                  "C12": lambda: gencheck12.run_generated_rows(ctx)}[pid]()
